@@ -277,6 +277,26 @@ class QueryCreator(BaseQueryCreator):
         use_ns = {"odml": odmlns, "rdf": RDF}
         return prepareQuery(self.query, initNs=use_ns)
 
+    @staticmethod
+    def _match_attribute(var, attr_name, predicate, value):
+        """
+        Returns the query lines matching the attribute of an object to a search value.
+        The odML id is the name of the RDF node itself; all other attributes are
+        literals of various data types (plain text, dates, numbers), which are
+        compared to the search value via their text.
+
+        :param var: name of the query variable of the object, e.g. "d", "s" or "p".
+        :param attr_name: odML name of the attribute.
+        :param predicate: prefixed RDF predicate of the attribute.
+        :param value: search value.
+        :return: string
+        """
+        if attr_name == "id":
+            return "FILTER(str(?{0}) = \"{1}{2}\") .\n".format(var, str(odmlns), value)
+
+        obj = "?{0}_{1}".format(var, attr_name)
+        return "?{0} {1} {2} . FILTER(str({2}) = \"{3}\") .\n".format(var, predicate, obj, value)
+
     def _prepare_query(self):
         """
         Creates rdflib query using parameters from self.q_dict.
@@ -299,7 +319,7 @@ class QueryCreator(BaseQueryCreator):
                         attr = Document.rdf_map(i[0])
                         if attr:
                             re_sub = re.sub(odml_uri, "odml:", attr)
-                            self.query += "?d {0} \"{1}\" .\n".format(re_sub, i[1])
+                            self.query += self._match_attribute("d", i[0], re_sub, i[1])
 
         if "Sec" in self.q_dict.keys():
             sec_attrs = self.q_dict["Sec"]
@@ -314,7 +334,7 @@ class QueryCreator(BaseQueryCreator):
                         attr = Section.rdf_map(i[0])
                         if attr:
                             re_sub = re.sub(odml_uri, "odml:", attr)
-                            self.query += "?s {0} \"{1}\" .\n".format(re_sub, i[1])
+                            self.query += self._match_attribute("s", i[0], re_sub, i[1])
 
         if "Prop" in self.q_dict.keys():
             prop_attrs = self.q_dict["Prop"]
@@ -328,14 +348,16 @@ class QueryCreator(BaseQueryCreator):
                     elif i[0] == "value":
                         values = i[1]
                         if values:
-                            self.query += "?p odml:hasValue ?v .\n?v rdf:type rdf:Bag .\n"
-                            for val in values:
-                                self.query += "?v rdf:li \"{}\" .\n".format(val)
+                            # Values are exported as members rdf:_1, rdf:_2, ... of an rdf:Seq.
+                            self.query += "?p odml:hasValue ?v .\n?v rdf:type rdf:Seq .\n"
+                            for idx, val in enumerate(values):
+                                self.query += "?v ?v_m{0} ?v_{0} . " \
+                                              "FILTER(str(?v_{0}) = \"{1}\") .\n".format(idx, val)
                     else:
                         attr = Property.rdf_map(i[0])
                         if attr:
                             re_sub = re.sub(odml_uri, "odml:", attr)
-                            self.query += "?p {0} \"{1}\" .\n".format(re_sub, i[1])
+                            self.query += self._match_attribute("p", i[0], re_sub, i[1])
 
         self.query += "}\n"
         return self.query
